@@ -57,8 +57,17 @@ Proof. intros. apply (complete_done (the_cfg s) (the_cfg_lock s) eq_refl _ (reac
 
 (* ---------------- schedule independence *)
 Lemma schedule_independent : forall s sched, valid s = true ->
-  spec s (observe s (complete (the_cfg s) (reached s sched))) = true.
+  spec s (completed_obs (the_cfg s) s sched) = true.
 Proof. intros s sched Hv. apply (every_schedule_meets_spec (the_cfg s) ts_wiring_ok eq_refl s sched Hv). Qed.
+
+(* ---------------- occupancy of the locked region over a whole execution (the schedule, then the run to the end) *)
+Lemma region_occupancy : forall s sched,
+  occupancy (reached s sched) <= 1 /\ run_peak (the_cfg s) sched (init_state s) <= 1.
+Proof.
+  intros s sched. split.
+  - apply occupancy_le_1. apply reached_lockinv.
+  - apply run_peak_le_1. apply the_cfg_lock. reflexivity. apply lockinv_init.
+Qed.
 
 Definition incl_b (a b : list (nat * nat * N)) : bool := forallb (fun x => existsb (triple_eqb x) b) a.
 
@@ -80,8 +89,8 @@ Qed.
 
 (* two schedules of one scenario: same verdicts, same number of allocations, same outstanding set *)
 Lemma two_schedules : forall s sched1 sched2, valid s = true ->
-  let o1 := observe s (complete (the_cfg s) (reached s sched1)) in
-  let o2 := observe s (complete (the_cfg s) (reached s sched2)) in
+  let o1 := completed_obs (the_cfg s) s sched1 in
+  let o2 := completed_obs (the_cfg s) s sched2 in
   o_verdicts o1 = o_verdicts o2 /\ o_adv o1 = o_adv o2 /\ incl (o_entries o1) (o_entries o2) /\ incl (o_entries o2) (o_entries o1).
 Proof.
   intros s sched1 sched2 Hv o1 o2.
@@ -171,6 +180,9 @@ Lemma ex_run : o_done (run ex_scenario) = true /\ o_verdicts (run ex_scenario) =
 Proof. vm_compute. repeat split; reflexivity. Qed.
 Lemma ex_in_cs : exists sched t th, nth_error (st_threads (reached ex_scenario sched)) t = Some th /\ in_cs (th_phase th) = true.
 Proof. exists [0; 0], 0. eexists. split. vm_compute. reflexivity. reflexivity. Qed.
+(* thread 0 has taken the lock and rests inside; thread 1 is given six turns and stays outside *)
+Lemma ex_occupancy : occupancy (reached ex_scenario [0; 0; 1; 1; 1; 1; 1; 1]) = 1.
+Proof. vm_compute. reflexivity. Qed.
 Lemma ex_not_done : all_done (reached ex_scenario [0; 1; 0]) = false.
 Proof. vm_compute. reflexivity. Qed.
 
